@@ -90,6 +90,63 @@ pub fn check_assignment(c: &Corpus, lay: &Layout, fm: &FieldMap, label: &str, p:
             ),
             Dec::Panic(pn) => p.violation(format!("C01/{}/decode-panic", lay.name), format!("{} {}: decoding the encoder's frame panicked: {pn}", lay.name, mode_name(compressed)), replay.clone()),
         }
+        // (a') the same frame with another frame queued behind it in the buffer (as after one TCP read) decodes to the same packet
+        {
+            let mut queued = frame.clone();
+            queued.extend_from_slice(&[if compressed { 1 } else { 4 }, 3, 2, 3]);
+            match real_decode(&queued, compressed) {
+                Dec::Packet(q, left) => {
+                    let qd = norm_debug(&q);
+                    if qd != typed_dbg || left != 4 {
+                        let field = debug_diff_field(&typed_dbg, &qd);
+                        p.violation(
+                            format!("C01/{}/{}/roundtrip-with-successor-queued", lay.name, field),
+                            format!("{} {}: with another frame queued behind it the encoder's frame decodes to {} ({left} bytes left; sent {})", lay.name, mode_name(compressed), clip(&qd), clip(&typed_dbg)),
+                            replay.clone(),
+                        );
+                    }
+                },
+                _ => p.count("queued_frame_not_decoded", 1), // reported by (a) already
+            }
+        }
+        // (a'') the public BinRead / BinWrite impls on stream-like readers and writers (short reads / short writes)
+        {
+            use insim_core::binrw::{BinRead, BinWrite};
+            use insim::Packet;
+            let max = 1 + (frame.len() % 3);
+            let mut sink = crate::ioadapt::ShortSink::new(max);
+            match guarded(|| typed.write(&mut sink)) {
+                Ok(Ok(())) => {
+                    let body = sink.bytes();
+                    if body[..] != frame[1..] {
+                        let at = body.iter().zip(frame[1..].iter()).position(|(x, y)| x != y).unwrap_or(body.len().min(frame.len() - 1));
+                        p.violation(
+                            format!("C01/{}/short-writing-sink", lay.name),
+                            format!("{} {}: written through BinWrite into a writer that accepts {max} byte(s) per call, the packet body differs from the encoder's at offset {} ({} vs {} bytes)", lay.name, mode_name(compressed), at + 1, body.len(), frame.len() - 1),
+                            replay.clone(),
+                        );
+                    }
+                },
+                Ok(Err(e)) => p.violation(format!("C01/{}/short-writing-sink", lay.name), format!("{} {}: BinWrite into a short-writing writer fails: {e}", lay.name, mode_name(compressed)), replay.clone()),
+                Err(pn) => p.violation(format!("C01/{}/short-writing-sink", lay.name), format!("{} {}: BinWrite into a short-writing writer panicked: {pn}", lay.name, mode_name(compressed)), replay.clone()),
+            }
+            let mut rd = crate::ioadapt::ChunkReader::new(&frame[1..], max);
+            match guarded(|| Packet::read(&mut rd).map_err(|e| e.to_string())) {
+                Ok(Ok(q)) => {
+                    let qd = norm_debug(&q);
+                    if qd != typed_dbg {
+                        let field = debug_diff_field(&typed_dbg, &qd);
+                        p.violation(
+                            format!("C01/{}/{}/chunking-reader", lay.name, field),
+                            format!("{} {}: read through BinRead from a reader that returns {max} byte(s) per call: {} (sent {})", lay.name, mode_name(compressed), clip(&qd), clip(&typed_dbg)),
+                            replay.clone(),
+                        );
+                    }
+                },
+                Ok(Err(e)) => p.violation(format!("C01/{}/chunking-reader", lay.name), format!("{} {}: BinRead from a chunking reader fails on the encoder's own frame: {}", lay.name, mode_name(compressed), clip(&e)), replay.clone()),
+                Err(pn) => p.violation(format!("C01/{}/chunking-reader", lay.name), format!("{} {}: BinRead from a chunking reader panicked: {pn}", lay.name, mode_name(compressed)), replay.clone()),
+            }
+        }
         // (c) canonical frames of the specification: encode(decode(g)) == g
         if img.frame != frame {
             // the encoder disagrees with the specification: C02's subject. Still round-trip g.
